@@ -7,6 +7,14 @@ HelperWraps(chain) == Len(chain) > 0 /\ chain[Len(chain)] = "V"
 Finger(r) ==
   LET w == [kind |-> r.kind, pc |-> r.pc, p1 |-> r.p1, p2 |-> r.p2] IN
   IF r.gen = "panic" THEN {<<"C13", "generator-panic", r.why, r.id>>}
+  ELSE IF w.kind = "skipcopy" THEN
+       (IF r.gen # "ok" THEN {<<"C12", "valid-rejected", "skipcopy-witness", r.id>>}
+        ELSE IF ~r.compiles THEN {<<"C01", "does-not-compile", "witness", r.id>>}
+        ELSE (IF r.alias[1] # AliasI(w, w.p1) THEN {<<"C12", "precedence", "skipCopySameType-effect-M1", r.id>>} ELSE {})
+             \cup (IF r.alias[3] # AliasI(w, w.p2) THEN {<<"C12", "sibling", "skipCopySameType-effect-M2", r.id>>} ELSE {})
+             \cup (IF r.alias[2] # AliasC(w) \/ r.alias[4] # AliasC(w) THEN {<<"C12", "generated-method-not-using-converter-setting", "skipCopySameType-helper", r.id>>} ELSE {})
+             \cup (IF (r.alias[1] /\ ~AliasI(w, w.p1)) \/ (r.alias[3] /\ ~AliasI(w, w.p2)) \/ ((r.alias[2] \/ r.alias[4]) /\ ~AliasC(w))
+                   THEN {<<"C04", "result-shares-memory-with-source", "skipCopySameType-not-in-effect", r.id>>} ELSE {}))
   ELSE IF w.kind = "ctxregex" THEN
        (IF r.gen # "ok" /\ RegexOK(w) THEN {<<"C12", "valid-rejected", "ctxregex-witness", r.id>>}
         ELSE IF r.gen = "ok" /\ ~RegexOK(w) THEN {<<"C12", "precedence", "ctxregex-not-in-effect", r.id>>}
